@@ -199,14 +199,14 @@ def build_driver():
             if f.endswith(".ml"):
                 import shutil
                 shutil.copy(os.path.join(VERIF, "ocaml", f), ML)
-        sh("ocamlfind ocamlopt -O2 -w -a -o driver.tmp $(ocamldep -sort *.ml *.mli) && mv driver.tmp driver", cwd=ML, timeout=900)
+        sh("ocamlfind ocamlopt -package str -linkpkg -O2 -w -a -o driver.tmp $(ocamldep -sort *.ml *.mli) && mv driver.tmp driver", cwd=ML, timeout=900)
         return drv
 
 
 # ----------------------------------------------------------------------------------------
 # running streams
 
-def run_lines(binary, lines, timeout=1200, shards=NPROC, env=None, memlimit_kb=None):
+def run_lines(binary, lines, timeout=1200, shards=NPROC, env=None, memlimit_kb=None, key_index=0):
     """Feed case lines to `<binary> run` (sharded over processes); returns output lines in order."""
     if not lines:
         return []
@@ -241,7 +241,7 @@ def run_lines(binary, lines, timeout=1200, shards=NPROC, env=None, memlimit_kb=N
         res = [r for r in (res or []) if r.strip()]
         got = {}
         for r in res:
-            got[r.split(" ", 1)[0]] = r
+            got[(r.split(" ", key_index + 1) + [""] * (key_index + 1))[key_index]] = r
         for c in ch:
             cid = c.split(" ", 2)[1]
             byid[cid] = got.get(cid, cid + " no-output")
@@ -269,6 +269,9 @@ def corpus_cases(stream):
 # ----------------------------------------------------------------------------------------
 # known findings / replay / evidence
 
+_replay_n = 0
+
+
 def known_findings():
     p = os.path.join(VERIF, "known_findings.json")
     if not os.path.exists(p):
@@ -279,7 +282,9 @@ def known_findings():
 def write_replay(pid, seed, payload):
     d = os.path.join(VERIF, "replays")
     os.makedirs(d, exist_ok=True)
-    path = os.path.join(d, "%s-%s-%d.json" % (pid, seed, int(time.time() * 1000) % 100000000))
+    global _replay_n
+    _replay_n += 1
+    path = os.path.join(d, "%s-%s-%d-%d.json" % (pid, seed, int(time.time() * 1000) % 100000000, _replay_n))
     json.dump(payload, open(path, "w"), indent=1)
     return path
 
